@@ -137,4 +137,39 @@ def gen_envtables(repo, gendir):
     return errors
 
 
-GENERATORS = {'Gen_envtables': gen_envtables}
+def _r(x):
+    fr = Fraction(x)
+    return '(IZR %s / IZR %d)' % ('(%d)' % fr.numerator if fr.numerator < 0 else '%d' % fr.numerator, fr.denominator)
+
+
+def gen_envR(repo, gendir):
+    """Gen_envR.v: the real-number reading of what the transcendental shapes call --
+    bi.sqrt (translated, math.sqrt -> sqrt) and the two float literals of Env._env_at as reals."""
+    errors = []
+    out = [T.HEADER % 'sc3/base/builtins.py (sqrt), sc3/synth/envelope.py (constants)',
+           'From Coq Require Import Reals R_sqrt.\nRequire Import SC3.lib.PyReal.\nOpen Scope R_scope.\n']
+    try:
+        tree = ast.parse(open(os.path.join(repo, 'sc3/base/builtins.py')).read())
+        fd = T._funcs(tree).get('sqrt')
+        if fd is None:
+            raise Refused('builtins.sqrt not found')
+        if not set(T._decorator(fd)) <= T.SC_DECOS:
+            raise Refused('unexpected decorator on sqrt')
+        tr = T.InfAware('R', {'math.sqrt': ('builtin', 'sqrt', 1)})
+        out.append(tr.function(fd, 'pyR_sqrt'))
+    except Refused as e:
+        errors.append({'target': 'Gen_envR', 'error': 'sqrt: %s' % e})
+    try:
+        cls = T._classes(ast.parse(open(os.path.join(repo, SRC)).read())).get('Env')
+        if cls is None:
+            raise Refused('class Env not found')
+        ex, eps = at_constants(cls)
+        out.append('Definition env_cub_exponentR : R := %s.\n' % _r(ex))
+        out.append('Definition env_curve_epsR : R := %s.\n' % _r(eps))
+    except Refused as e:
+        errors.append({'target': 'Gen_envR', 'error': 'constants: %s' % e})
+    T._write(os.path.join(gendir, 'Gen_envR.v'), '\n'.join(out))
+    return errors
+
+
+GENERATORS = {'Gen_envtables': gen_envtables, 'Gen_envR': gen_envR}
